@@ -258,7 +258,7 @@ PROPS["C16"] = {
 
 PROPS["C06"] = {
     "level": "other",
-    "technique": "Verus contracts on the extracted WriteBuffer (append / take / clear conserve the batch sequence and keep the two counters equal to the sums), Ingester::append_to_buffer_and_maybe_flush (an accepted batch is accounted for exactly once, after everything before it; BufferFull appends and drops nothing; flush-before-append on schema change), Ingester::flush_batches (exactly one upload under a fresh path, one registration whose entry carries the written data's row count, min and max timestamp, one legacy and one topic announcement, in this order) and extract_min_timestamp / extract_max_timestamp (true minimum / maximum for both supported column types)",
+    "technique": "a second reading of append_to_buffer_and_maybe_flush under a rely (other writers may append while the lock is released during a flush): the buffer stays schema-homogeneous, i.e. compatibility is re-checked after every flush before the incoming batch is appended; Verus contracts on the extracted WriteBuffer (append / take / clear conserve the batch sequence and keep the two counters equal to the sums), Ingester::append_to_buffer_and_maybe_flush (an accepted batch is accounted for exactly once, after everything before it; BufferFull appends and drops nothing; flush-before-append on schema change), Ingester::flush_batches (exactly one upload under a fresh path, one registration whose entry carries the written data's row count, min and max timestamp, one legacy and one topic announcement, in this order) and extract_min_timestamp / extract_max_timestamp (true minimum / maximum for both supported column types)",
     "verus": ["c06_ingest.rs.in"],
     "explanation": "Sequential obligations proved for all batch sequences, thresholds and schemas; the buffer lock is read as ownership (take and append happen under the same write guard). Interleavings of concurrent writers and the timer flush are not explored (each path is proved separately: every take() is followed by exactly one flush_batches call with exactly the taken batches). Value preservation of concat_batches and the Parquet encoder is assumed. The all-null timestamp column yields min = max = 0 (flagged, not a violation of the stated property).",
     "assumptions": [
